@@ -267,6 +267,7 @@ func checkPrintCase(res *Result, pc *printCase, rng *rand.Rand, full bool, tag s
 	}
 	for _, d := range deliveries(lens, rng, full) {
 		src := newSource(data, d.plan, d.dflt, nil, d.withData)
+		src.keepLog = true
 		obs := runStream(src, opts, len(lines)+3)
 		judgePipe(res, pc, pc.Calls, lines, data, obs, src, tag+"/"+d.name, cmp)
 	}
